@@ -10,8 +10,8 @@ import (
 	"encoding/json"
 	"fmt"
 	"hash"
-	"io"
 	"hash/crc32"
+	"io"
 
 	"github.com/pion/stun/v3/zzverif/hmacx"
 	"github.com/pion/stun/v3/zzverif/sched"
